@@ -340,7 +340,48 @@ func fineLogins(prop string, store string) fineCase {
 	}}
 }
 
+// fineCallbacks: two callbacks carrying the same state value at the same time: the browser the state was
+// issued to presents a code the provider honours, another browser presents the same state with a code the
+// provider refuses. The provider's answer is a scheduling point.
+func fineCallbacks(store string, secondCode string) fineCase {
+	name := fmt.Sprintf("two-callbacks-with-one-state/%s/store=%s", secondCode, store)
+	return fineCase{Name: name, Run: func(prefix []int) vsched.RunResult {
+		vclock.Reset()
+		app := NewWebApp(WebCfg{Store: store, HostSelection: "roundrobin", Hosts: []string{"target.example:3389"}, VerifyClientIP: true})
+		now := time.Now()
+		if _, ok := c13IDTokens["fine-alice"]; !ok {
+			c13IDTokens["fine-alice"] = app.IdP.IDToken(map[string]any{"iss": idpIssuer, "aud": "rdpgw", "sub": "alice", "exp": now.Add(time.Hour).Unix(), "iat": now.Unix(), "preferred_username": "alice"}, false)
+		}
+		app.IdP.Codes["fine-alice"] = CodeBehaviour{AccessToken: "at-alice", IDToken: c13IDTokens["fine-alice"]}
+		app.IdP.Codes["refused"] = CodeBehaviour{Refuse: true}
+		app.IdP.SchedPoint = true
+		defer func() { app.IdP.SchedPoint = false }()
+		A, B := NewBrowser("10.0.0.1:40000"), NewBrowser("10.0.0.2:40000")
+		st := StateOf(A.Do(app, "GET", "/connect"))
+		B.Do(app, "GET", "/connect") // B has a session of its own (and a state of its own, which it does not use)
+		var codeA, codeB int
+		x := fineThreads(prefix,
+			func() { codeA = A.Do(app, "GET", "/callback?state="+st+"&code=fine-alice").Code },
+			func() { codeB = B.Do(app, "GET", "/callback?state="+st+"&code="+secondCode).Code })
+		v := finePanics("C13", name, x)
+		app.IdP.SchedPoint = false
+		wa, _ := c13Who(app, A)
+		wb, _ := c13Who(app, B)
+		if wb.Authenticated {
+			v = append(v, vsched.Violation{Sig: "C13/session-authenticated-without-a-verified-login/" + name, Detail: fmt.Sprintf("browser B presented a code the provider refuses (callback answered %d) and its session is now authenticated as %q", codeB, wb.User)})
+		}
+		if wa.Authenticated && wa.User != "alice" {
+			v = append(v, vsched.Violation{Sig: "C13/session-authenticated-as-another-user/" + name, Detail: fmt.Sprintf("browser A is %q", wa.User)})
+		}
+		x.Finish()
+		return vsched.RunResult{X: x, Outcome: fmt.Sprintf("A=%d/%v B=%d/%v", codeA, wa.Authenticated, codeB, wb.Authenticated), Violations: v}
+	}}
+}
+
 func init() {
+	fineCases["C13"] = func() []fineCase {
+		return []fineCase{fineCallbacks("cookie", "refused"), fineCallbacks("file", "refused"), fineCallbacks("cookie", "never-issued")}
+	}
 	fineCases["C12"] = func() []fineCase { return []fineCase{fineLogins("C12", "cookie"), fineLogins("C12", "file")} }
 	fineCases["C04"] = func() []fineCase { return []fineCase{fineDownloads("C04", false)} }
 	fineCases["C19"] = func() []fineCase { return []fineCase{fineDownloads("C19", false), fineDownloads("C19", true)} }
